@@ -131,7 +131,7 @@ class AsyncListener:
             # Guard against duplicate packets
             if self.last_message.is_query() and self._registry.has_entries:
                 # not answered again, but its questions were heard again
-                self._query_handler.async_remember_query(self.last_message, now)
+                self._query_handler.async_remember_query(self.last_message, now, True)
             if debug:
                 log.debug(
                     'Ignoring duplicate message with no unicast questions received from %s [socket %s] (%d bytes) as [%r]',
